@@ -877,7 +877,12 @@ func runFuzz(id string, ft fuzzTarget, work string) (map[string]interface{}, str
 	if v, err := strconv.Atoi(os.Getenv("VERIF_FUZZ_SECS")); err == nil && v > 0 {
 		secs = v
 	}
-	args := []string{"test", "-tags", "verif", "-run", "^$", "-fuzz", "^" + ft.Name + "$", "-fuzztime", fmt.Sprintf("%ds", secs), "-test.fuzzcachedir", cache, pkgDir(id)}
+	args := []string{"test", "-tags", "verif", "-run", "^$", "-fuzz", "^" + ft.Name + "$", "-fuzztime", fmt.Sprintf("%ds", secs)}
+	if repoPath != "/repo" {
+		args = append(args, "-modfile", filepath.Join(work, "alt.mod"))
+	}
+	// the package comes before -test.fuzzcachedir: go test passes everything after an unknown -test.* flag to the binary
+	args = append(args, pkgDir(id), "-test.fuzzcachedir", cache)
 	cmd := exec.Command("go", args...)
 	cmd.Dir = harness
 	cmd.Env = append(goEnv(), "VERIF_PROP="+id, "VERIF_OUT="+work)
